@@ -34,6 +34,15 @@ const (
 // the real Validate against the fake store under recover, records the model
 // case and applies the oracle(s).
 func Run(c *vh.Ctx, cs Case, opt Options) {
+	var real common.DataStore
+	if cs.Badger != nil {
+		env, err := badgerFor(cs.Badger)
+		if err != nil {
+			panic(fmt.Sprintf("real-store history of case %s cannot be replayed: %v", cs.Kind, err))
+		}
+		cs.View = env.view
+		real = env.store
+	}
 	st, err := NewStore(&cs.View)
 	if err != nil {
 		panic(fmt.Sprintf("bad view in case %s: %v", cs.Kind, err))
@@ -53,7 +62,12 @@ func Run(c *vh.Ctx, cs Case, opt Options) {
 	consistent, why := st.ViewConsistent()
 
 	var verr error
-	pan, pv = vh.Catch(func() { verr = ver.Validate(st, cs.Ts, cs.Fork) })
+	if real != nil {
+		pan, pv = vh.Catch(func() { verr = ver.Validate(real, cs.Ts, cs.Fork) })
+		st.markRead(ver)
+	} else {
+		pan, pv = vh.Catch(func() { verr = ver.Validate(st, cs.Ts, cs.Fork) })
+	}
 	class, obs := ClassAccept, vh.Ok("tt")
 	if pan {
 		class, obs = ClassPanic, vh.Pan("unit")
@@ -71,6 +85,9 @@ func Run(c *vh.Ctx, cs Case, opt Options) {
 	facts := computeFacts(ver2, st)
 	term := CoqCase(ver2, st, facts, cs.Ts, cs.Fork, obs)
 
+	if cs.Badger != nil {
+		cs.View = View{}
+	}
 	sum := sha256.Sum256([]byte(mustJSON(cs)))
 	kind := cs.Kind + "/" + class
 	if !consistent {
